@@ -2900,14 +2900,18 @@ let spike_train_order_bi o0 eps0 cy rc normalize mt m a b =
     'a1 numOps -> 'a1 -> bool -> bool -> bool -> 'a1 -> 'a1 -> 'a1 train list
     -> nat list option -> 'a1 res **)
 
-let spike_train_order_multi o0 eps0 cy rc _ mt m l idx =
+let spike_train_order_multi o0 eps0 cy rc normalize mt m l idx =
   let l0 = if rc then reconcile o0 eps0 l else l in
   let ix = indices_or_all (length l0) idx in
   if negb (check_indices (length l0) ix)
   then Err AssertionError
   else let ps = pairs_of ix in
        rmap (fun cm ->
-         if o0.neqb (snd cm) o0.n0 then o0.n1 else o0.ndiv (fst cm) (snd cm))
+         if normalize
+         then if o0.neqb (snd cm) o0.n0
+              then o0.n1
+              else o0.ndiv (fst cm) (snd cm)
+         else fst cm)
          (fold_left (fun acc p ->
            rbind acc (fun a ->
              rmap (fun d -> ((o0.nadd (fst a) (fst d)),
